@@ -28,7 +28,10 @@ A(n) == [op |-> "Await", call |-> n]
 Single(n, s) == <<C(n, s), A(n)>>
 Pair(n, a, b) == <<C(n, a), C(n + 1, b), A(n + 1), A(n)>>      \* a is held while b runs to completion
 
-Others(ep, s) == {t \in Lattice[ep] : SameInstance(ep, s, t) /\ t # s /\ t # ProbeOf(ep, s)}
+\* the inputs that fit one configuration (SameInstance is an equivalence; a configuration is named by its probe
+\* shape): computed once per configuration instead of once per lattice point
+Classes == [ep \in EPs |-> [p \in {ProbeOf(ep, s) : s \in Lattice[ep]} |-> {t \in Lattice[ep] : SameInstance(ep, t, p)}]]
+Others(ep, s) == Classes[ep][ProbeOf(ep, s)] \ {s, ProbeOf(ep, s)}
 Partner(ep, s) == IF Others(ep, s) = {} THEN s ELSE RandomElement(Others(ep, s))
 
 Steps(tm, s, t, p) ==
@@ -55,7 +58,7 @@ RNext ==
           /\ \E ep \in EPs : \E s \in Lattice[ep] :
                 plan' = [tmpl |-> "random", ep |-> ep, inst |-> ProbeOf(ep, s), of |-> s, steps |-> << >>]
        \/ /\ plan # None /\ Planned < MaxCalls
-          /\ LET class == {x \in Lattice[plan.ep] : SameInstance(plan.ep, x, plan.inst)}
+          /\ LET class == Classes[plan.ep][plan.inst]
                  a == RandomElement(class \cup {plan.inst, plan.of})
                  b == RandomElement(class \cup {plan.inst, plan.of})
              IN  \/ plan' = [plan EXCEPT !.steps = @ \o Single(Planned + 1, a)]
